@@ -90,7 +90,8 @@ func runTLC(o tlcOpts) (*tlcResult, error) {
 	if o.Timeout == 0 {
 		o.Timeout = 10 * time.Minute
 	}
-	args := []string{"-XX:+UseParallelGC", "-Xss512m"}
+	// (TLC leaves a directory per run in java.io.tmpdir: keep it inside the scratch directory, removed with it)
+	args := []string{"-XX:+UseParallelGC", "-Xss512m", "-Djava.io.tmpdir=" + scratch}
 	if o.Deque {
 		args = append(args, "-Dtlc2.tool.queue.IStateQueue=StateDeque")
 	}
